@@ -29,9 +29,9 @@ F(ok, name) == IF ok THEN "" ELSE name \o "; "
 
 ObsFails(o, s, i) ==   \* s, i: content and position AFTER the call
      F(o.k = i, "cursor position")
-  \o F(o.line = LineOf(s, i) /\ o.col = ColumnOf(s, i), "line/column is not that of a forward scan to the position")
+  \o F(HasOtherBreak(s) \/ (o.line = LineOf(s, i) /\ o.col = ColumnOf(s, i)), "line/column is not that of a forward scan to the position")
   \o F(o.peek = PeekOf(s, i), "peek")
-  \o F(o.pline = PeekLineOf(s, i) /\ o.pcol = PeekColumnOf(s, i),
+  \o F(HasOtherBreak(s) \/ (o.pline = PeekLineOf(s, i) /\ o.pcol = PeekColumnOf(s, i)),
        "peeked line/column differ from those after the next read")
   \o F(o.k2 = o.k /\ o.line2 = o.line /\ o.col2 = o.col, "a peek moved the cursor")
 
